@@ -19,6 +19,26 @@ CHECKS = {
          "independence by induction over search histories. The model is tied to the code by exhaustive comparison of all pairs "
          "|pattern|<=4,|perm|<=7 (thorough 5/8) and planted random cases, plus an independent brute-force oracle.",
          "left_floor_and_ceiling modelled by its arg-max specification; coloured occurrences correspondence-only.", "5/C01"),
+ "C02": ("Lean 4 model of the Av level cache/builder + insertion-criterion theorem; correspondence on query histories incl. iterators and cache clearing",
+         "The class builder (end-insertion windows, shared spot lists, compaction), class cache and lazily evaluated iterators are "
+         "modelled as an explicit process state machine; proved: the window-of-deletions insertion criterion for all bases/permutations. "
+         "Every history line (constructions, count/of_length/in/up_to_length/first/enumeration/is_subclass/clear_cache, partially consumed "
+         "iterators) is run on the real Av, on the model and on a brute-force oracle of the property text.",
+         "cache invariant / refinement theorems in progress (see evidence.partial); mesh basis pruning is C05's subject.", "5/C02"),
+ "C04": ("Lean 4 theorems: dihedral relations, containment equivariance (classical and mesh), orbits, lex_min invariance + correspondence",
+         "Proved for all permutations, meshes and integer rotation counts: the group relations (including mesh cell maps), "
+         "Contains (g s) (g p) <-> Contains s p and the mesh analogue for all eight symmetries, all_syms = orbit, lex_min constant on orbits. "
+         "Tied to the code by exhaustive comparison (perms <=6, all meshes of length <=2, rotation counts -9..9) with a geometric oracle.",
+         "regex / __str__ glue of the CLI body is correspondence-only.", "5/C04"),
+ "C09": ("Lean 4 theorems: permsLex enumerates S_n sorted, rank/unrank mutually inverse and monotone, standardisation spec, notation round trips, mesh rank/unrank + correspondence",
+         "Proved for all lengths/ranks/inputs: generators list every permutation once in (length, lex) order, rank/unrank inverse and order-matching "
+         "(error branches explicit), to_standard is the unique tie-broken order-isomorphic permutation (memo history independent), notation round trips "
+         "with exact domains, mesh rank/unrank/of_length bijective. Exhaustive correspondence on all ranks up to sum n! (n<=7).",
+         "repr round trip (eval) correspondence-only.", "5/C09"),
+ "C10": ("Lean 4 theorems: closure, group laws, sum/skew/inflate configurations, shift actions, insert/remove inverses, decompositions, intervals, children/coveredby duality + correspondence",
+         "54 theorems for all permutations and all argument values (including assert/IndexError branches); exhaustive correspondence for |p|<=6 "
+         "with all indices/values/shifts in -2n..2n and an independent definitional oracle.",
+         "uniqueness of decompositions and left-maximality of runs are evaluated only.", "5/C10"),
 }
 
 PENDING = {}
